@@ -126,6 +126,69 @@ def gen_relax_case(rng, nmax):
             "meta": {"prec": prec, "n": n, "kind": pat["kind"], "user": False, "stream": "relax_change", "relax": [r1, r2]}}
 
 
+def exactly_nonsingular(pat, prec, vals):
+    """exact (complex rational) elimination: is the matrix with these values nonsingular?"""
+    n = pat["n"]; A = pl.to_cq(vals, pl.NCOMP[prec])
+    M = [dict() for _ in range(n)]             # rows as dict col -> CQ
+    for j in range(n):
+        for k in range(pat["colptr"][j], pat["colptr"][j + 1]):
+            if not A[k].iszero():
+                M[pat["rowind"][k]][j] = A[k]
+    for j in range(n):
+        pr = next((i for i in range(j, n) if j in M[i]), None)
+        if pr is None:
+            return False
+        M[j], M[pr] = M[pr], M[j]
+        piv = M[j][j]; den = piv.re * piv.re + piv.im * piv.im
+        for i in range(j + 1, n):
+            if j in M[i]:
+                num = M[i][j] * piv.conj(); l = pl.CQ(num.re / den, num.im / den)
+                for c, v in M[j].items():
+                    if c > j:
+                        t = M[i].get(c, pl.CQ(0, 0)) - l * v
+                        if t.iszero():
+                            M[i].pop(c, None)
+                        else:
+                            M[i][c] = t
+                del M[i][j]
+    return True
+
+
+def gen_zero_pivot_case(rng, exe, wd, nmax, tag):
+    """pivot reuse asked for although an OLD PIVOT IS NOW EXACTLY ZERO (threshold u = 0 included, where u*pivmax = 0 does not
+    exclude it): first factorization, look at the permutations it returned, then a refactorization (usepr = YES) whose values
+    have an exact zero at the old pivot of the column eliminated first (no update can touch it), then a solve."""
+    for attempt in range(20):
+        prec = rng.choice("sdcz"); n = rng.randint(3, nmax)
+        pat = pl.gen_pattern(rng, n); nc = pl.NCOMP[prec]
+        ienv = list(pl.IENV_DEFAULT); ienv[0] = rng.choice([1, 2, 8]); ienv[1] = rng.choice([1, 2, 6]); ienv[2] = 20
+        v1 = pl.gen_vals(rng, pat, prec, rng.choice(["diagdom", "mixed"]))
+        pc = rng.choice([0, 1, 2, 3]); u1 = rng.choice([1.0, 0.1, 0.0])
+        first = dict(op="first", slot=0, api=1, nprocs=1, u=u1, fact=0, lwork=0, relax=ienv[1], panel=ienv[0], trans=0, nrhs=1, usepr=0,
+                     vals=v1, rhs=pl.gen_rhs(rng, prec, n, 1), style="mixed", permc=pc)
+        probe = {"ienv": ienv, "slots": [{"sid": 0, "prec": prec, "pat": pat}], "ops": [first], "meta": {}}
+        rc, res, err = pl.run_case(exe, probe, wd, "probe_" + tag)
+        if rc != 0 or not res or res[0].get("info") != 0 or not pl.is_perm(res[0].get("permr", []), n):
+            continue
+        j0 = res[0]["permc"].index(0); i0 = res[0]["permr"].index(0)
+        ks = [k for k in range(pat["colptr"][j0], pat["colptr"][j0 + 1])]
+        kp = [k for k in ks if pat["rowind"][k] == i0]
+        if len(ks) < 2 or not kp:
+            continue
+        v2 = pl.gen_vals(rng, pat, prec, "perturb", base=v1, noise=rng.choice([0.0, 1e-3]))
+        for c in range(nc):
+            v2[kp[0] * nc + c] = 0.0
+        if not exactly_nonsingular(pat, prec, v2):
+            continue              # zeroing that entry made the matrix singular: info > 0 would be right
+        ops = [first,
+               dict(op="refact", slot=0, api=rng.choice([0, 1]), nprocs=rng.choice([1, 2]), u=rng.choice([0.0, 0.0, 0.1, 1.0]), fact=0, lwork=0,
+                    relax=ienv[1], panel=ienv[0], trans=0, nrhs=1, usepr=1, vals=v2, rhs=pl.gen_rhs(rng, prec, n, 1), style="mixed"),
+               dict(op="solve", slot=0, api=1, nprocs=1, trans=rng.choice([0, 1]), nrhs=1, rhs=pl.gen_rhs(rng, prec, n, 1))]
+        return {"ienv": ienv, "slots": [{"sid": 0, "prec": prec, "pat": pat}], "ops": ops,
+                "meta": {"prec": prec, "n": n, "kind": pat["kind"], "user": False, "stream": "zero_old_pivot"}}
+    return None
+
+
 # ----------------------------------------------------------------------------------------- shrinking
 def still_fails(exe, drv, case, key, wd, tries=1):
     for t in range(tries):
@@ -157,7 +220,7 @@ def run(ctx):
     quick = ctx.quick()
     ctx.cov["rule"] = ("random op sequences (length <= %d) over {first factor, refactor(usepr yes/no, fresh or perturbed values), "
                        "solve with existing factors (trans N/T, 1-3 rhs), destroy + first again, refactor with a zero column, "
-                       "superlu_?QuerySpace, lwork=-1 query (must leave A, L, U, perm_r, perm_c, etree/colcnt_h/part_super_h as they were)} on one session; precision s/d/c/z, n in 1..%d, 7 pattern families with a "
+                       "refactor with pivot reuse although the old pivot of the first eliminated column is now exactly zero (thresholds 0, .1, 1), superlu_?QuerySpace, lwork=-1 query (must leave A, L, U, perm_r, perm_c, etree/colcnt_h/part_super_h as they were)} on one session; precision s/d/c/z, n in 1..%d, 7 pattern families with a "
                        "zero-free diagonal, threads 1-4 varying per call, system or user workspace, expert driver or "
                        "p?gstrf_init/p?gstrf/?gstrs per call, panel/relax/maxsuper/rowblk/colblk per session; plus 'twin' sequences "
                        "(two sessions on one pattern and precision, ASan build) and 'relax_change' sequences.  Every op is one "
@@ -201,6 +264,13 @@ def run(ctx):
         jobs.append((exe_asan, drv, pl.case_to_json(gen_twin_case(ctx.rng, 10 if quick else 14)), wd, "t%d" % k, True))
     for k in range(20 if quick else 200):
         jobs.append((exe_asan, drv, pl.case_to_json(gen_relax_case(ctx.rng, 12)), wd, "r%d" % k, True))
+    nz = 0
+    for k in range(60 if quick else 500):
+        zc = gen_zero_pivot_case(ctx.rng, exe, wd, 10 if quick else 16, "z%d" % k)
+        if zc is not None:
+            nz += 1
+            jobs.append((exe, drv, pl.case_to_json(zc), wd, "z%d" % k, True))
+    ctx.corr("zero_old_pivot_histories", nz)
     for k in range(100 if quick else 800):      # the single-session stream once more under ASan (stale pointers do not always crash)
         case = pl.gen_c08_case(ctx.rng, 8, 10)
         case["meta"]["stream"] = "single_asan"
